@@ -261,7 +261,10 @@ def match_packages(
         # with the all-arches candidates
         allarches_kw: list[str] = []
         if allarches and stable and filter_arch:
-            allarches_kw = sort_keywords(suggested_keywords(repo, pkg, stable=True))
+            # other versions may still carry arches the repo no longer knows
+            allarches_kw = sort_keywords(
+                suggested_keywords(repo, pkg, stable=True) & valid_arches
+            )
 
         if only_new:
             keywords = [
